@@ -13,7 +13,6 @@
  *        that targets the file VERIF_IO_TARGET.
  * Only outcomes POSIX allows are produced.  fd 2 (stderr) is never touched.
  */
-#define _GNU_SOURCE
 #include <dlfcn.h>
 #include <errno.h>
 #include <fcntl.h>
